@@ -105,6 +105,22 @@ def plan(ctx, bases):
             add(b, [0, ctx.rng.randrange(2, K + 1)], tag="scattered")
             add(b, upd=[0], tag="update")
             add(b, upd=[ctx.rng.randrange(1, max(U, 2))], tag="update")
+            if b["cfg"].get("target"):
+                # tied values in the training set: the retry that drops the worst points must keep the rest
+                for fl in ([1, 2], [2, 3], [1, 2, 3], [3, 4]):
+                    add(b, fl, tag="ties")
+            if bi == 0:
+                # two non-default options together: the slice sampler proposes the retry's start point from TWO stored vectors
+                for fl in ([1], [2], [1, 2], [3]):
+                    c = copy.deepcopy(b["cfg"])
+                    c.setdefault("opts", {}).update(double_refit=True, use_slice_sampler=True)
+                    c.update(faults=fl, upd_faults=[], upd_double=False, tag="double_refit+slice")
+                    cfgs.append(c)
+                for fl in ([1], [2, 3]):
+                    c = copy.deepcopy(b["cfg"])
+                    c.setdefault("opts", {}).update(use_slice_sampler=True)
+                    c.update(faults=fl, upd_faults=[], upd_double=False, tag="slice")
+                    cfgs.append(c)
             if bi in (0, 3):
                 # the non-default double_refit=True: the GP holds TWO candidate hyper-parameter vectors when a refit fails
                 for fl in ([1], [2], [1, 2], [3]):
@@ -133,7 +149,7 @@ def plan(ctx, bases):
 def tie(ctx, broken):
     base_cfgs = F.base_configs()
     if ctx.quick:
-        base_cfgs = [c for c in base_cfgs if c["name"] in ("det-a", "decl-a", "spec-a")]
+        base_cfgs = [c for c in base_cfgs if c["name"] in ("det-a", "decl-a", "spec-a", "det-clip", "det-const")]
     else:
         extra = []
         for i in range(7):
